@@ -31,6 +31,20 @@ type W struct {
 	Tasks [][]Op `json:"tasks"`
 }
 
+// Gadget is a Go type registered as a script class through RegisterReflectClass.
+type Gadget struct{ n int }
+
+func (g *Gadget) Alpha() int        { return 1 }
+func (g *Gadget) Beta() int         { return 2 }
+func (g *Gadget) Gamma() string     { return "g" }
+func (g *Gadget) Delta(x int) int   { return x }
+func (g *Gadget) Epsilon() bool     { return true }
+func (g *Gadget) Zeta(s string) int { return len(s) }
+func (g *Gadget) Eta() int          { g.n++; return g.n }
+func (g *Gadget) Theta() float64    { return 1.5 }
+
+var gadgetMethods = []string{"Alpha", "Beta", "Gamma", "Delta", "Epsilon", "Zeta", "Eta", "Theta"}
+
 var names = []string{"Alpha", "Beta", "Gamma", "Delta", "Eps", "Zeta"}
 
 // autoloadable fixture classes: directly under the registered namespace and in
@@ -89,7 +103,7 @@ func gen(r *verifsim.Rng, tier string) (any, hx.Sched) {
 	pool := 1 + r.Intn(len(names)) // small pools collide more
 	kinds := []string{"addclass", "addclass", "addiface", "addfunc", "addfunc", "getclass", "getclass", "getiface", "getfunc", "loadpkg",
 		"setconst", "getconst", "global", "setfile", "getfile", "allclasses", "allfuncs", "getorload", "getorload",
-		"getclass_ci", "getfunc_bs", "loadpkg_bs", "getconst_bs", "addns", "findfile"}
+		"getclass_ci", "getfunc_bs", "loadpkg_bs", "getconst_bs", "addns", "findfile", "regreflect", "newobj", "newobj"}
 	// swarm: disable a random subset of kinds
 	var enabled []string
 	for _, k := range kinds {
@@ -230,6 +244,9 @@ func exec(t *testing.T, x any, s hx.Sched) *hx.Outcome {
 		if tag, ok := tagOf[v]; ok {
 			return "found:" + tag
 		}
+		if _, ok := v.(*runtime.ReflectClass); ok {
+			return "found:R" // a class registered through RegisterReflectClass (the VM creates the object)
+		}
 		return "found:?"
 	}
 	cfg := s.Config(0)
@@ -248,6 +265,34 @@ func exec(t *testing.T, x any, s hx.Sched) *hx.Outcome {
 						ret = okDup(vm.AddInterface(ifaces[id]))
 					case "addfunc":
 						ret = okDup(vm.AddFunc(funcs[id]))
+					case "regreflect":
+						ret = okDup(vm.RegisterReflectClass(op.N, &Gadget{}))
+					case "newobj":
+						// instantiate whatever class is registered under the name, the way `new X` does,
+						// and look at the object: a reflect class must expose all of its methods
+						c, ok := vm.GetClass(op.N)
+						if !ok || c == nil {
+							ret = "notfound"
+							break
+						}
+						_, isStub := tagOf[c]
+						obj, ctl := c.GetValue(vm.CreateContext(nil))
+						switch {
+						case ctl != nil:
+							ret = "error:" + firstLine(hx.CtlStr(ctl))
+						case isStub:
+							ret = "object"
+						default:
+							missing := 0
+							if cv, ok := obj.(*data.ClassValue); ok {
+								for _, mname := range gadgetMethods {
+									if _, has := cv.GetMethod(mname); !has {
+										missing++
+									}
+								}
+							}
+							ret = fmt.Sprintf("object:missing=%d", missing)
+						}
 					case "getclass":
 						c, ok := vm.GetClass(op.N)
 						ret = found(c, ok)
@@ -396,6 +441,8 @@ func baseKind(k string) string {
 	switch k {
 	case "getclass_ci":
 		return "getclass"
+	case "regreflect":
+		return "addclass"
 	case "getfunc_bs":
 		return "getfunc"
 	case "loadpkg_bs":
@@ -409,7 +456,7 @@ func baseKind(k string) string {
 func partitionKey(p hx.HOp) string {
 	name, _, _ := strings.Cut(p.Arg, "#")
 	switch baseKind(p.Kind) {
-	case "addclass", "addiface", "getclass", "getiface", "loadpkg":
+	case "addclass", "addiface", "getclass", "getiface", "loadpkg", "newobj":
 		return "type:" + name
 	case "addfunc", "getfunc":
 		return "func:" + name
@@ -448,7 +495,16 @@ var regModel = porcupine.Model{
 			if out == "notfound" {
 				return !strings.HasPrefix(st, "C:"), st
 			}
+			if out == "found:R" {
+				return strings.HasPrefix(st, "C:r"), st
+			}
 			return st == "C:"+strings.TrimPrefix(out, "found:"), st
+		case "newobj":
+			if out == "notfound" {
+				return !strings.HasPrefix(st, "C:"), st
+			}
+			// an object of the registered class, complete
+			return strings.HasPrefix(st, "C:") && (out == "object" || out == "object:missing=0"), st
 		case "getiface":
 			if out == "notfound" {
 				return !strings.HasPrefix(st, "I:"), st
@@ -457,6 +513,9 @@ var regModel = porcupine.Model{
 		case "loadpkg":
 			if out == "notfound" {
 				return st == "", st
+			}
+			if out == "found:R" {
+				return strings.HasPrefix(st, "C:r"), st
 			}
 			return len(st) > 2 && st[2:] == strings.TrimPrefix(out, "found:"), st
 		case "addfunc", "setconst":
@@ -499,6 +558,9 @@ func evaluate(o *hx.Outcome, ops []hx.HOp) {
 			continue
 		}
 		_, id, _ := strings.Cut(p.Arg, "#")
+		if p.Kind == "regreflect" {
+			id = "r" + id
+		}
 		if _, ok := parts[k]; !ok {
 			keys = append(keys, k)
 		}
@@ -544,6 +606,9 @@ func classify(h []porcupine.Operation) string {
 		}
 		if i.kind == "getorload" && strings.HasPrefix(q.Output.(string), "error:") {
 			loadErr = true
+		}
+		if i.kind == "newobj" && strings.HasPrefix(q.Output.(string), "object:missing=") && q.Output.(string) != "object:missing=0" {
+			return "incomplete-object"
 		}
 	}
 	switch {
